@@ -641,7 +641,7 @@ impl Property for C03 {
         "C03"
     }
     fn rule(&self) -> String {
-        "lex: every string over the 14-character alphabet {\\ { ^ space LF CR NUL DEL é a 5 % ~ M} up to length 3 (quick) / 4 (thorough; length 5 for the plain table) \
+        "lex: every string over the 14-character alphabet {\\ { ^ space LF CR NUL DEL é a 5 % ~ M} up to length 3 (quick) / 4 (thorough: every table for the strings with a doubled ^ a 5 M é CR or blank, the 6 plain tables for all; plus length 5 under the plain table with endlinechar CR/none) \
          x 44 category tables (plain with 6 default categories + 38 single changes of ^, space, CR, a, 5, M, é, DEL, NUL, \\, %) x endlinechar in {none, CR, a, ^, space}, report_end_of_line on (off for every 4th); \
          then random texts up to 48 characters (expanded codes, hex pairs, non-ASCII, blank lines, trailing blanks, no final newline) with random tables (plain / 25% changed / all random) and random endlinechar; \
          vm: real VM<StdLibState> running text with \\catcode and \\endlinechar changes mid-file. \
@@ -700,6 +700,16 @@ impl Property for C03 {
                         let t = Table { eol: *eol, dflt: *dflt, pairs: pairs.clone() };
                         v.push(lex_case(count % 4 != 0, &t, &s));
                     }
+                }
+            }
+        }
+        if ctx.thorough {
+            // length 5 under the plain table, end-line character CR or none
+            for s in all_strings(5) {
+                for eol in [Some('\r'), None] {
+                    count += 1;
+                    let t = Table { eol, dflt: 12, pairs: BASE.to_vec() };
+                    v.push(lex_case(count % 4 != 0, &t, &s));
                 }
             }
         }
@@ -954,7 +964,7 @@ fn gen_vm(r: &mut Rng) -> VmCase {
     for i in 0..k {
         let last = i + 1 == k;
         let (kind, x, y) = if r.chance(1, 4) {
-            (1, *r.pick(&[-1i64, 13, 97, 94, 32, 77, 37, 200]), 0)
+            (1, *r.pick(&[-1i64, 13, 97, 94, 32, 77, 37, 200, 127, 128, 0]), 0)
         } else {
             // characters the commands themselves do not need; space and escape only last
             let mut chars: Vec<i64> = vec![94, 126, 37, 77, 90, 0, 233, 13, 117, 63, 9, 127];
